@@ -567,6 +567,7 @@ def run(ctx):
     # re-serialised packets get a header derived from the bytes that follow (shared with C05)
     from rules import c05
     c05.header_derivation(ctx, P)
+    c05.sum_type_header_once(ctx, P)
     s17_1(ctx, P)
     s17_2(ctx, P)
     s17_3(ctx, P)
